@@ -52,11 +52,45 @@ func cmdVisStress(c Cmd) (interface{}, error) {
 		}
 		return nil
 	}
+	// ring buffer of recent hook events, dumped with a failing query (diagnostics only)
+	var ringMu sync.Mutex
+	var ring []string
+	var ringSeq int64
+	ringSince := func(from int64) []string {
+		ringMu.Lock()
+		defer ringMu.Unlock()
+		var out []string
+		for _, e := range ring {
+			var sq int64
+			fmt.Sscanf(e, "%d ", &sq)
+			if sq > from {
+				out = append(out, e)
+			}
+		}
+		if len(out) > 80 {
+			out = out[len(out)-80:]
+		}
+		return out
+	}
 	verifhook.Set(func(point string, kv ...any) {
-		if point != "flush.begin" && point != "flush.unrotated.visible" && point != "rot.end" {
+		if point == "q.pull.check" {
 			return
 		}
 		m := kvMap(kv)
+		ringMu.Lock()
+		ringSeq++
+		sk := fmt.Sprint(m["segkey"])
+		if i := strings.LastIndex(sk, "/final/"); i >= 0 {
+			sk = sk[i+7:]
+		}
+		ring = append(ring, fmt.Sprintf("%d %s qid=%v seg=%s n=%v blk=%v", ringSeq, point, m["qid"], sk, m["n"], m["blk"]))
+		if len(ring) > 3000 {
+			ring = ring[1000:]
+		}
+		ringMu.Unlock()
+		if point != "flush.begin" && point != "flush.unrotated.visible" && point != "rot.end" {
+			return
+		}
 		s := find(fmt.Sprint(m["segkey"]))
 		if s == nil {
 			return
@@ -149,7 +183,9 @@ func cmdVisStress(c Cmd) (interface{}, error) {
 			case <-stop:
 				return
 			case <-time.After(time.Duration(15+r.Intn(60)) * time.Millisecond):
-				writer.ForceRotateSegmentsForTest()
+				if !c.boolean("no_rotate") {
+					writer.ForceRotateSegmentsForTest()
+				}
 			}
 		}
 	}()
@@ -174,6 +210,9 @@ func cmdVisStress(c Cmd) (interface{}, error) {
 				s := idx[r.Intn(len(idx))]
 				form := forms[r.Intn(len(forms))]
 				lo := s.visible.Load()
+				ringMu.Lock()
+				seq0 := ringSeq
+				ringMu.Unlock()
 				nextQidMu.Lock()
 				nextQid++
 				qid := nextQid
@@ -206,7 +245,7 @@ func cmdVisStress(c Cmd) (interface{}, error) {
 							again = "immediately repeated query: " + k2 + " " + w2
 						})
 					}
-					addFail(k, form, fmt.Sprintf("index %s lo=%d hi=%d flushes=%d rotations=%d qid=%d: %s [%s]", s.name, lo, hi, s.flushes.Load(), s.rotation.Load(), qid, w, again))
+					addFail(k, form, fmt.Sprintf("index %s lo=%d hi=%d flushes=%d rotations=%d qid=%d: %s [%s] events during the query: %v", s.name, lo, hi, s.flushes.Load(), s.rotation.Load(), qid, w, again, ringSince(seq0-6)))
 				})
 			}
 		}(rand.New(rand.NewSource(seed*23 + int64(qi))))
@@ -257,8 +296,20 @@ func cmdVisStress(c Cmd) (interface{}, error) {
 			continue
 		}
 		seen := map[int64]int{}
+		badContent := 0
+		firstBad := ""
 		for _, h := range resp.Hits.Hits {
-			seen[toI64(h["id"])]++
+			id := toI64(h["id"])
+			seen[id]++
+			if toI64(h["g"]) != id%3 || toI64(h["v"]) != id || toI64(h["timestamp"]) != 1700000000000+id*10 {
+				badContent++
+				if firstBad == "" {
+					firstBad = fmt.Sprintf("id=%v g=%v v=%v timestamp=%v", h["id"], h["g"], h["v"], h["timestamp"])
+				}
+			}
+		}
+		if badContent > 0 {
+			addFail("final-content", "*", fmt.Sprintf("index %s: %d stored events differ from what was ingested, e.g. %s", s.name, badContent, firstBad))
 		}
 		missing, dup := 0, 0
 		for id := int64(1); id <= n; id++ {
